@@ -61,7 +61,7 @@ def run(tier: str) -> int:
         # run 1 (alone: the box is oversubscribed): the replayer's scenario family + the negative controls
         scs, r1 = ac.export_and_controls(2, "FamExportQuickC" if q else "FamExportC")
         ck.note("negative_controls", {"caller": "NoStartAfterDisposeReturned", "early": "NotEarly", "lose": "NoLostAction",
-                                      "nowake": "NoLostAction", "inline": "OnLoopThread", "impatient": "NoStartAfterDisposeReturned",
+                                      "nowake": "NoLostAction", "inline": "OnLoopThread", "impatient": "NoStartAfterDisposeReturned", "spent": "NoStartAfterDisposeReturned",
                                       "verdict": "each refuted by its invariant (postcondition ControlsRefuted)"})
         designs = [("design: all interleavings, the 1-item scenarios", True,
                     tp.submit(ac.design_run, 2, "FamOneQuick" if q else "FamOne", ("own",), ("F",), 3, True, busysets="BusyExport"))]
